@@ -54,7 +54,7 @@ func c14Jobs(cases []*lab.Case, lo, n, perJob int, mixed bool, rot int) []proto.
 			m.Size = 65 // Size(64): the parse stays within the initial capacity
 		case 2:
 			m.NoMemo = true
-		case 3:
+		case 3, 5:
 			m.Pretty = true
 		}
 		jobs = append(jobs, proto.Job{Pkg: fmt.Sprintf("g%d%s", cs.ID, v), Steps: steps, Mode: m})
@@ -114,7 +114,7 @@ func evalConc(c *drv.Ctx, cases []*lab.Case, sets [][]proto.Job, procs []int, st
 			reqs = append(reqs, proto.Req{Kind: "conc"})
 			continue
 		}
-		reqs = append(reqs, proto.Req{Kind: "conc", Jobs: jobs, Procs: procs[i]})
+		reqs = append(reqs, proto.Req{Kind: "conc", Jobs: jobs, Procs: procs[i], Cold: true})
 	}
 	// one worker at a time for the concurrent requests would waste cores; four workers keep the
 	// machine busy while leaving room for each request's own goroutines
@@ -251,7 +251,7 @@ func init() {
 		return "", nil
 	})
 	drv.Register("C14",
-		"12 (quick) / 60 (thorough) well-formed grammars, default and -inline -switch parsers built into one binary with the race detector; job sets of 8 goroutines over one parser and of 16 goroutines over two different parsers, each goroutine owning one instance (Init with option values shared between goroutines: Size(64), DisableMemoize, Pretty, none) and running 3-4 Reset/Parse/Execute/Sprint/Error steps (one in three followed by a second Parse of another rule without Reset) behind a common barrier, repeated under GOMAXPROCS 2, 4 and 16; every observation must equal the same parse run alone in the same binary, the race detector must stay silent and the worker must survive. Every job set is non-trivial (>=8 concurrent instances); distinct = (job set, GOMAXPROCS).",
+		"12 (quick) / 60 (thorough) well-formed grammars, default and -inline -switch parsers built into one binary with the race detector; job sets of 8 goroutines over one parser and of 16 goroutines over two different parsers, each goroutine owning one instance (Init with option values shared between goroutines: Size(64), DisableMemoize, Pretty, none) and running 3-4 Reset/Parse/Execute/Sprint/Error steps (one in three followed by a second Parse of another rule without Reset) behind a common barrier, repeated under GOMAXPROCS 2, 4 and 16; every concurrent job set is the first thing a fresh process does (lazily built package state is cold); every observation (incl. AST().PrettyPrint into a private buffer in Pretty mode) must equal the same parse run alone in the same binary, the race detector must stay silent and the worker must survive. Every job set is non-trivial (>=8 concurrent instances); distinct = (job set, GOMAXPROCS).",
 		[]string{
 			"schedules are sampled by the Go scheduler, not enumerated; the race detector is happens-before based, so an unsynchronised conflicting pair is flagged whenever both accesses execute",
 			"PrintSyntaxTree (global os.Stdout) is left out of concurrent jobs",
